@@ -13,27 +13,28 @@ open JPV.Peg JPV.Print JPV.Lex JPV.Build
 
 /-- `Sim` generalised: the tokens replace the items `pre` on top of a non-empty stack by `items v` -/
 structure SimFrom {α : Type} (c : Ctx) (toks : List Tok) (pre : List Item) (items : α → List Item)
-    (b : Except ParseErr α) : Prop where
+    (b : Except ParseErr α) (pos : Nat) : Prop where
   ok : ∀ v, b = .ok v → ∀ (stk : List Item) (sv : List (List Item)) (rt : Option (List N)) (tb te : Nat),
     stk ≠ [] → ∃ tb' te', ∀ rest,
       execFrom c ⟨pre ++ stk, sv, rt, tb, te⟩ (toks ++ rest) = execFrom c ⟨items v ++ stk, sv, rt, tb', te'⟩ rest
   err : ∀ e, b = .error e → ∀ (stk : List Item) (sv : List (List Item)) (rt : Option (List N)) (tb te : Nat),
-    stk ≠ [] → ∃ pos, ∀ rest,
+    stk ≠ [] → ∀ rest,
       execFrom c ⟨pre ++ stk, sv, rt, tb, te⟩ (toks ++ rest) = .error (stopOf pos e)
 
 theorem Sim.toFrom {α : Type} {c : Ctx} {toks : List Tok} {items : α → List Item} {b : Except ParseErr α}
-    (h : Sim c toks items b) : SimFrom c toks [] items b :=
+    {pos : Nat} (h : Sim c toks items b pos) : SimFrom c toks [] items b pos :=
   ⟨fun v hv stk sv rt tb te hne => h.ok v hv stk sv rt tb te hne,
    fun e he stk sv rt tb te hne => h.err e he stk sv rt tb te hne⟩
 
 theorem SimFrom.toSim {α : Type} {c : Ctx} {toks : List Tok} {items : α → List Item} {b : Except ParseErr α}
-    (h : SimFrom c toks [] items b) : Sim c toks items b :=
+    {pos : Nat} (h : SimFrom c toks [] items b pos) : Sim c toks items b pos :=
   ⟨fun v hv stk sv rt tb te hne => h.ok v hv stk sv rt tb te hne,
    fun e he stk sv rt tb te hne => h.err e he stk sv rt tb te hne⟩
 
 /-- a simulation leaves what is below untouched -/
 theorem Sim.frame {α : Type} {c : Ctx} {toks : List Tok} {items : α → List Item} {b : Except ParseErr α}
-    (h : Sim c toks items b) (pre : List Item) : SimFrom c toks pre (fun v => items v ++ pre) b := by
+    {pos : Nat} (h : Sim c toks items b pos) (pre : List Item) :
+    SimFrom c toks pre (fun v => items v ++ pre) b pos := by
   constructor
   · intro v hv stk sv rt tb te _
     obtain ⟨tb', te', h1⟩ := h.ok v hv (pre ++ stk) sv rt tb te (by simp_all)
@@ -41,19 +42,19 @@ theorem Sim.frame {α : Type} {c : Ctx} {toks : List Tok} {items : α → List I
   · intro e he stk sv rt tb te _
     exact h.err e he (pre ++ stk) sv rt tb te (by simp_all)
 
-/-- sequential composition = `bind` of `Build` -/
+/-- sequential composition = `bind` of `Build`; the position is that of the part that fails -/
 theorem SimFrom.seq {α β : Type} {c : Ctx} {t1 t2 : List Tok} {pre : List Item} {i1 : α → List Item}
-    {i2 : β → List Item} {b1 : Except ParseErr α} {f : α → Except ParseErr β}
-    (h1 : SimFrom c t1 pre i1 b1) (h2 : ∀ a, b1 = .ok a → SimFrom c t2 (i1 a) i2 (f a)) :
-    SimFrom c (t1 ++ t2) pre i2 (b1 >>= f) := by
+    {i2 : β → List Item} {b1 : Except ParseErr α} {f : α → Except ParseErr β} {pos1 pos2 : Nat}
+    (h1 : SimFrom c t1 pre i1 b1 pos1) (h2 : ∀ a, b1 = .ok a → SimFrom c t2 (i1 a) i2 (f a) pos2) :
+    SimFrom c (t1 ++ t2) pre i2 (b1 >>= f) (seqPos b1 pos1 pos2) := by
   cases b1 with
   | error e0 =>
     constructor
     · intro v hv; cases hv
     · intro e he stk sv rt tb te hne
       cases he
-      obtain ⟨pos, h3⟩ := h1.err e0 rfl stk sv rt tb te hne
-      exact ⟨pos, fun rest => by rw [List.append_assoc, h3]⟩
+      have h3 := h1.err e0 rfl stk sv rt tb te hne
+      exact fun rest => by rw [List.append_assoc, h3]; rfl
   | ok a =>
     constructor
     · intro v hv stk sv rt tb te hne
@@ -62,13 +63,13 @@ theorem SimFrom.seq {α β : Type} {c : Ctx} {t1 t2 : List Tok} {pre : List Item
       exact ⟨tb2, te2, fun rest => by rw [List.append_assoc, h3, h4]⟩
     · intro e he stk sv rt tb te hne
       obtain ⟨tb1, te1, h3⟩ := h1.ok a rfl stk sv rt tb te hne
-      obtain ⟨pos, h4⟩ := (h2 a rfl).err e he stk sv rt tb1 te1 hne
-      exact ⟨pos, fun rest => by rw [List.append_assoc, h3, h4]⟩
+      have h4 := (h2 a rfl).err e he stk sv rt tb1 te1 hne
+      exact fun rest => by rw [List.append_assoc, h3, h4]; rfl
 
 theorem SimFrom.cast {α : Type} {c : Ctx} {t t' : List Tok} {pre : List Item} {i i' : α → List Item}
-    {b b' : Except ParseErr α} (h : SimFrom c t pre i b) (ht : t = t') (hi : i = i') (hb : b = b') :
-    SimFrom c t' pre i' b' := by
-  subst ht; subst hi; subst hb; exact h
+    {b b' : Except ParseErr α} {pos pos' : Nat} (h : SimFrom c t pre i b pos) (ht : t = t') (hi : i = i')
+    (hb : b = b') (hp : pos = pos') : SimFrom c t' pre i' b' pos' := by
+  subst ht; subst hi; subst hb; subst hp; exact h
 
 /-! ### literals -/
 
@@ -129,14 +130,14 @@ theorem buildP_pathT (env : Env) (cfg : Cfg) (single : Bool) (q : Path) :
 theorem stage37 (c : Ctx) (h : Head) (ch : List N) (p e : Nat) :
     SimFrom c [.text p e, .action 37] [Item.bool (decide (h = .root)), Item.query (.exist (headP h ch))]
       (fun x : P => [Item.cp x])
-      (if (true && chainVg ch) = true then .error .valueGroupOperand else .ok (headP h ch)) := by
+      (if (true && chainVg ch) = true then .error .valueGroupOperand else .ok (headP h ch)) p := by
   cases hvg : chainVg ch with
   | true =>
     constructor
     · intro v hv; simp at hv
     · intro e0 he stk sv rt tb te _
       simp at he; subst he
-      refine ⟨p, fun rest => ?_⟩
+      intro rest
       cases h <;>
       simp [execFrom_text, execFrom_action, act, act37, pop, push, asBool, asJP, headP, paramChain, hvg,
         bind, Except.bind, stopOf]
@@ -153,13 +154,13 @@ theorem stage37 (c : Ctx) (h : Head) (ch : List N) (p e : Nat) :
 theorem sim_single (c : Ctx) (cfg : Cfg) (q : Path) (hq : ParamSim c cfg q) {p : Nat} {r : List Char}
     (h : Sfx c.input p (path q ++ r)) :
     Sim c (.action 38 :: (tkPath p q ++ [.action 39, .text p (p + (path q).length), .action 37]))
-      (fun x : P => [Item.cp x]) (buildP c.env cfg true (pathT q)) := by
+      (fun x : P => [Item.cp x]) (buildP c.env cfg true (pathT q)) (posOperand c.env cfg p (.path q)) := by
   rw [buildP_pathT]
   have h1 := (hq p r h).toFrom.seq (t2 := [.text p (p + (path q).length), .action 37])
     (i2 := fun x : P => [Item.cp x])
     (f := fun ch => if (true && chainVg ch) = true then .error .valueGroupOperand else .ok (headP (pathHead q) ch))
     (fun ch _ => stage37 c (pathHead q) ch p _)
-  exact (h1.cast (by simp) rfl rfl).toSim
+  exact (h1.cast (by simp) rfl rfl (by rw [posOperand])).toSim
 
 /-- 2. a path operand -/
 theorem sim_operand_path (c : Ctx) (cfg : Cfg) (q : Path) (hq : ParamSim c cfg q) : OperandSim c cfg (.path q) := by
@@ -172,9 +173,9 @@ theorem sim_operand_path (c : Ctx) (cfg : Cfg) (q : Path) (hq : ParamSim c cfg q
 
 /-- the capture of a basic query and action 27 -/
 theorem stage27 (c : Ctx) (neg b : Bool) (Q0 : Q) {p : Nat} {s r : List Char} (c0 : Char) (s' : List Char)
-    (hs : s = c0 :: s') (hc : (c0 == '!') = neg) (h : Sfx c.input p (s ++ r)) :
+    (hs : s = c0 :: s') (hc : (c0 == '!') = neg) (h : Sfx c.input p (s ++ r)) {pos : Nat} :
     SimFrom c [.text p (p + s.length), .action 27] [Item.bool b, Item.query Q0] (fun q' : Q => [Item.query q'])
-      (.ok (if neg then .not Q0 else Q0)) := by
+      (.ok (if neg then .not Q0 else Q0)) pos := by
   constructor
   · intro v hv stk sv rt tb te _
     cases hv
@@ -213,10 +214,10 @@ theorem sim_exist (c : Ctx) (cfg : Cfg) (neg : Bool) (q : Path) (hq : ParamSim c
     · exact ⟨_, _, rfl, headChar_ne_bang _⟩
     · exact ⟨_, _, rfl, rfl⟩
   obtain ⟨c0, s', hs1, hs2⟩ := hs
-  have h1 := (hq _ r h0).toFrom.seq
+  have h1 := (hq _ r h0).toFrom.seq (pos2 := posPath c.env cfg (p + (if neg then 1 else 0)) q)
     (f := fun ch => .ok (if neg then Q.not (.exist (headP (pathHead q) ch)) else .exist (headP (pathHead q) ch)))
     (fun ch _ => stage27 c neg (decide (pathHead q = .root)) (.exist (headP (pathHead q) ch)) c0 s' hs1 hs2 h)
-  exact (h1.cast (by simp) rfl rfl).toSim
+  exact (h1.cast (by simp) rfl rfl (by rw [seqPos_self, posQ])).toSim
 
 /-! ### comparisons -/
 
@@ -282,14 +283,14 @@ theorem exec_cmpop (c : Ctx) (op : CmpOp) (a b : P) (stk : List Item) (sv : List
 /-- the operator action, the capture of the comparison and action 26 -/
 theorem stageCmp (c : Ctx) (op : CmpOp) (a b : P) (p e : Nat) :
     SimFrom c [.action (opAction op), .text p e, .action 26] [Item.cp b, Item.cp a] (fun q : Q => [Item.query q])
-      (if (isCur a && isCur b) = true then .error .twoCurrentNodes else .ok (mkCmp op a b)) := by
+      (if (isCur a && isCur b) = true then .error .twoCurrentNodes else .ok (mkCmp op a b)) p := by
   cases hcur : (isCur a && isCur b) with
   | true =>
     constructor
     · intro v hv; simp at hv
     · intro e0 he stk sv rt tb te _
       simp at he; subst he
-      refine ⟨p, fun rest => ?_⟩
+      intro rest
       simp only [List.cons_append, List.nil_append]
       rw [exec_cmpop]
       simp [execFrom_text, execFrom_action, act, act26, pop, push,
@@ -314,7 +315,8 @@ theorem sim_cmp (c : Ctx) (cfg : Cfg) (op : CmpOp) (l r : Operand) (hl : Operand
   simp only [List.append_assoc] at h
   have h1 := (hl (isOrdOp op) p _ h).toFrom
   have h2 := fun a : P => (hr (isOrdOp op) _ _ h.append.append).frame [Item.cp a]
-  exact (h1.seq (fun a _ => (h2 a).seq (fun b _ => stageCmp c op a b p _))).toSim
+  exact ((h1.seq (fun a _ => (h2 a).seq (fun b _ => stageCmp c op a b p _))).cast rfl rfl rfl
+    (by rw [posQ])).toSim
 
 /-! ### regular expressions -/
 
@@ -335,9 +337,9 @@ theorem escRegex_okQ (re : String) (h : regexOK re = true) : escRegex re.toList 
 
 /-- the capture of the regular expression, action 34, the capture of the comparison, action 26 -/
 theorem stage34 (c : Ctx) (re : String) (hc : c.ext.regexCompile re = .ok) (x : P) {p3 : Nat} {r : List Char}
-    (h : Sfx c.input p3 (re.toList ++ r)) (p e : Nat) :
+    (h : Sfx c.input p3 (re.toList ++ r)) (p e : Nat) {pos : Nat} :
     SimFrom c [.text p3 (p3 + re.toList.length), .action 34, .text p e, .action 26] [Item.cp x]
-      (fun q : Q => [Item.query q]) (.ok (.cmp x (.lit (.str "regex")) (.regex re))) := by
+      (fun q : Q => [Item.query q]) (.ok (.cmp x (.lit (.str "regex")) (.regex re))) pos := by
   constructor
   · intro v hv stk sv rt tb te _
     cases hv
@@ -361,10 +363,10 @@ theorem sim_regex (c : Ctx) (cfg : Cfg) (q : Path) (re : String) (hq : ParamSim 
   have h3 : Sfx c.input (p + (path q).length + 3) (re.toList ++ ('/' :: r)) := by
     have := h.append.tail.tail.tail
     simpa [Nat.add_assoc] using this
-  have h1 := (sim_single c cfg q hq h).toFrom.seq
+  have h1 := (sim_single c cfg q hq h).toFrom.seq (pos2 := posOperand c.env cfg p (.path q))
     (f := fun l => .ok (Q.cmp l (.lit (.str "regex")) (.regex re)))
     (fun x _ => stage34 c re hc x h3 p (p + (query prec (.regex q re)).length))
-  exact (h1.cast (by simp) rfl rfl).toSim
+  exact (h1.cast (by simp) rfl rfl (by rw [seqPos_self, posQ_regex])).toSim
 
 /-! ### `||` and `&&` -/
 
@@ -380,16 +382,16 @@ theorem sfx_paren {inp : Array Char} {p : Nat} (P : Prop) [Decidable P] (X Y : L
       Nat.add_zero] at h ⊢
     exact ⟨_, _, h, h.append.tail.tail⟩
 
-theorem stage24 (c : Ctx) (lq rq : Q) :
-    SimFrom c [.action 24] [Item.query rq, Item.query lq] (fun q : Q => [Item.query q]) (.ok (.or lq rq)) := by
+theorem stage24 (c : Ctx) (lq rq : Q) {pos : Nat} :
+    SimFrom c [.action 24] [Item.query rq, Item.query lq] (fun q : Q => [Item.query q]) (.ok (.or lq rq)) pos := by
   constructor
   · intro v hv stk sv rt tb te _
     cases hv
     exact ⟨tb, te, fun rest => rfl⟩
   · intro e he; cases he
 
-theorem stage25 (c : Ctx) (lq rq : Q) :
-    SimFrom c [.action 25] [Item.query rq, Item.query lq] (fun q : Q => [Item.query q]) (.ok (.and lq rq)) := by
+theorem stage25 (c : Ctx) (lq rq : Q) {pos : Nat} :
+    SimFrom c [.action 25] [Item.query rq, Item.query lq] (fun q : Q => [Item.query q]) (.ok (.and lq rq)) pos := by
   constructor
   · intro v hv stk sv rt tb te _
     cases hv
@@ -415,7 +417,8 @@ theorem sim_or (c : Ctx) (cfg : Cfg) (a b : Query) (ha : QSim c cfg a) (hb : QSi
   obtain ⟨r1, r2, h1, h2⟩ := sfx_paren (0 < prec) _ _ _ _ r h
   have s1 := (ha 0 _ r1 h1).toFrom
   have s2 := fun x : Q => (hb 1 _ r2 h2).frame [Item.query x]
-  exact (s1.seq (fun x _ => (s2 x).seq (fun y _ => stage24 c x y))).toSim
+  exact ((s1.seq (fun x _ => (s2 x).seq (pos2 := posQ c.env cfg 1 (p + (if 0 < prec then 1 else 0) +
+    (query 0 a).length + 2) b) (fun y _ => stage24 c x y))).cast rfl rfl rfl (by rw [seqPos_self, posQ])).toSim
 
 /-- 6. `&&` -/
 theorem sim_and (c : Ctx) (cfg : Cfg) (a b : Query) (ha : QSim c cfg a) (hb : QSim c cfg b) :
@@ -426,15 +429,16 @@ theorem sim_and (c : Ctx) (cfg : Cfg) (a b : Query) (ha : QSim c cfg a) (hb : QS
   obtain ⟨r1, r2, h1, h2⟩ := sfx_paren (1 < prec) _ _ _ _ r h
   have s1 := (ha 1 _ r1 h1).toFrom
   have s2 := fun x : Q => (hb 2 _ r2 h2).frame [Item.query x]
-  exact (s1.seq (fun x _ => (s2 x).seq (fun y _ => stage25 c x y))).toSim
+  exact ((s1.seq (fun x _ => (s2 x).seq (pos2 := posQ c.env cfg 2 (p + (if 1 < prec then 1 else 0) +
+    (query 1 a).length + 2) b) (fun y _ => stage25 c x y))).cast rfl rfl rfl (by rw [seqPos_self, posQ])).toSim
 
 /-! ### filter steps -/
 
 /-- action 23, the capture of the bracket and action 7 -/
-theorem stage23 (c : Ctx) (q' : Q) {p : Nat} {s r : List Char} (h : Sfx c.input p (s ++ r)) :
+theorem stage23 (c : Ctx) (q' : Q) {p : Nat} {s r : List Char} (h : Sfx c.input p (s ++ r)) {pos : Nat} :
     SimFrom c [.action 23, .text p (p + s.length), .action 7] [Item.query q']
       (fun pres : List Pre => [Item.chain (pres.map (rawOf c.acc))])
-      (.ok [.node (String.ofList s) true (fun i => .filter i q')]) := by
+      (.ok [.node (String.ofList s) true (fun i => .filter i q')]) pos := by
   constructor
   · intro v hv stk sv rt tb te _
     cases hv
@@ -461,7 +465,8 @@ theorem sim_step_filter (c : Ctx) (cfg : Cfg) (ad : Bool) (t : String) (q : Quer
     rw [Print.step] at this
     simp only [List.cons_append, List.append_assoc] at this
     simpa [Nat.add_assoc] using this.tail.tail.tail
-  exact ((hq 0 _ _ h0).toFrom.seq (fun q' _ => stage23 c q' h)).toSim
+  exact (((hq 0 _ _ h0).toFrom.seq (pos2 := posQ c.env cfg 0 (p + 3) q) (fun q' _ => stage23 c q' h)).cast rfl rfl rfl
+    (by rw [seqPos_self, posStep])).toSim
 
 /-! ### plain steps -/
 
@@ -525,10 +530,10 @@ theorem stepPre_shape (env : Env) (cfg : Cfg) (s : Step) (hnd : ∀ s', s ≠ .d
 
 /-- action 3 on the chain of the step that follows `..` -/
 theorem stage3 (c : Ctx) (T : String) (vg : Bool) (mk : Info → N) (mr lr : Bool)
-    (hf : ∀ i, recFlags (mk i) = (mr, lr)) :
+    (hf : ∀ i, recFlags (mk i) = (mr, lr)) {pos : Nat} :
     SimFrom c [.action 3] [Item.chain ([Pre.node T vg mk].map (rawOf c.acc))]
       (fun pres : List Pre => [Item.chain (pres.map (rawOf c.acc))])
-      (.ok (.node ".." true (fun i => .desc i mr lr) :: [Pre.node T vg mk])) := by
+      (.ok (.node ".." true (fun i => .desc i mr lr) :: [Pre.node T vg mk])) pos := by
   constructor
   · intro v hv stk sv rt tb te _
     cases hv
@@ -554,7 +559,8 @@ theorem sim_step_desc (c : Ctx) (cfg : Cfg) (s : Step) (hnd : ∀ s', s ≠ .des
     rw [Print.step] at this
     simp only [List.cons_append] at this
     exact this.tail.tail
-  refine ((hs _ r h0).toFrom.seq (fun pres hp => ?_)).toSim
+  refine (((hs _ r h0).toFrom.seq (pos2 := posStep c.env cfg true (p + 2) s) (fun pres hp => ?_)).cast rfl rfl rfl
+    (by rw [seqPos_self, posStep])).toSim
   obtain ⟨T, vg, mk, rfl, hf⟩ := stepPre_shape c.env cfg s hnd pres hp
   exact stage3 c T vg mk _ _ hf
 
